@@ -108,10 +108,18 @@ __ldn_to_ummulqura(dt_ldn_t d)
 	size_t y, m;
 
 	for (y = 0U; y < countof(_bom) && _bom[y][0U] <= d; y++);
+	if (UNLIKELY(!y)) {
+		/* before the first month of the table */
+		return res;
+	}
 	res.y = --y + UMMULQURA_BASE;
 	for (m = 0U; m < 12 && _bom[y][m] <= d; m++);
 	res.m = m--;
-	res.d = ++d - _bom[y][m];
+	if (UNLIKELY(++d - _bom[y][m] > 30U)) {
+		/* behind the last month of the table */
+		return (dt_ummulqura_t){0};
+	}
+	res.d = d - _bom[y][m];
 	return res;
 }
 
